@@ -10,7 +10,8 @@ TRUSTED = [
     "Coq 8.16.1 kernel (coqc, vm_compute); no axioms: every theorem is 'Closed under the global context'",
     "translator vplib/translate/gen_c13_span.py (text pins of composed/compose_location/From<Error> for ErrorMessage/SourceTree::single,new,From<S>/prql_to_tokens/lex_source_recovery/parse_source/load_std_lib/convert_lexer_error/parse_lr_to_pr/Add<usize> for Span/interpolation()/interpolation rebasing/Display for Reason/WithErrorInfo for Error/Resolver::fold_function; fail closed)",
     "Model/Span.v is a hand restatement of those functions and of ariadne-0.5.1 Source::from/get_offset_line/Label::new's assert; it is run against the implementation (harness linecol, compile, c13lex, c13tree, c13compose) on every run",
-    "Resolver::fold_function's re-spanning (respan_std) is tied by its text pin and by the end-to-end templates only (the resolver is not reachable in isolation without a hook)",
+    "Resolver::fold_function re-spanning (respan_std): hook verif:respan (hooks/respan.diff) logs inputs and output of every error leaving fold_function; in the moving branch the hook evaluates the same setter on a clone, the real value is tied by the chain check (reported span = composed of the outermost out) and the text pin",
+    "Model/Lexer.v, Model/LexerGen.v and gen_lex_tables.py (C17: lexer model and regenerated tables, run against the implementation by C17) are reused read-only; Model/InterpSpan.v is proved to erase to Lexer.mq_body",
     "chumsky's byte spans for &str input and token-index spans for &[Token] input (hypotheses `boundary`, `toks_okb` of the theorems; observed through the lexer's token spans, not proved)",
     "ariadne's report rendering is not modelled: `display quotes the line` is checked as text containment by the oracle only",
     "python oracle: UAX#14 mandatory breaks (CR LF CRLF VT FF NEL LS PS) define lines; written from the standard, independent of the model",
